@@ -308,7 +308,7 @@ Definition print_stmt (s : stmt) : text :=
       ++ cl_on db ++ cl_from ss ++ card_tail c ds li of_
   | ShowMeasurements db rp wdb wrp src c so li of_ =>
       ts "SHOW MEASUREMENTS"
-      ++ (if negb (is_empty db) || wdb then
+      ++ (if negb (is_empty db) || wdb || negb (is_empty rp) || wrp then
             ts " ON " ++ (if wdb then ts "*" else qi [db])
             ++ (if wrp then ts ".*" else if negb (is_empty rp) then ts "." ++ qi [rp] else [])
           else [])
